@@ -100,7 +100,13 @@ pub fn gen_seed(p: &mut Prng, len: usize, word_bytes: usize, allow_zero: bool) -
                     let mask0 = if word_bytes == 4 { 0xffff_ffffu64 } else { u64::MAX };
                     let a0 = p.u64() & mask0;
                     let b0 = p.u64() & mask0;
-                    let pool = [0u64, a0, b0, a0.wrapping_neg() & mask0, !a0 & mask0, a0 & !0xff, a0 & (mask0 >> 8), 1u64 << p.below(word_bytes as u64 * 8)];
+                    // (also: words whose product with a scrambler constant is small, i.e.
+                    // modular inverses of 5, 9, 0x9E3779BB times a small value)
+                    let small = p.u64() >> (32 + p.below(32));
+                    let inv = |c: u64| -> u64 { let mut x = c; for _ in 0..6 { x = x.wrapping_mul(2u64.wrapping_sub(c.wrapping_mul(x))); } x };
+                    let k = *p.pick(&[5u64, 9, 0x9E37_79BB, 45]);
+                    let pre = inv(k).wrapping_mul(small) & mask0;
+                    let pool = [0u64, a0, b0, a0.wrapping_neg() & mask0, !a0 & mask0, a0 & !0xff, pre, 1u64 << p.below(word_bytes as u64 * 8)];
                     // sub_kind 1: every word the same (non-zero) pool value
                     let same = pool[1 + p.below(7) as usize];
                     for i in 0..nw0 {
